@@ -150,16 +150,22 @@ def mdg (c : Circuit) : R Circuit :=
         | .error e => .error e
         | .ok outs => n2.setOutputs outs
 
+/-- the accumulation of `_find_equivalent_gates_groups`: rows with the labels carrying them -/
+def megGroupStep (gs : List (List V3 × List Label)) (p : Label × List V3) : List (List V3 × List Label) :=
+  if gs.any (fun q => q.1 == p.2) then gs.map (fun q => if q.1 == p.2 then (q.1, q.2 ++ [p.1]) else q)
+  else gs ++ [(p.2, [p.1])]
+
+def megIndexStep (d : Dict Nat) (q : (List V3 × List Label) × Nat) : Dict Nat :=
+  q.1.2.foldl (fun d l => Dict.set d l q.2) d
+
 /-- `_find_equivalent_gates_groups`: label → index of its group (groups with ≥ 2 members) -/
 def megGroups (c : Circuit) : R (Dict Nat) :=
   match gatesTruthTable c with
   | .error e => .error e
   | .ok gtt =>
-    let groups : List (List V3 × List Label) := gtt.foldl (fun gs p =>
-      if gs.any (fun q => q.1 == p.2) then gs.map (fun q => if q.1 == p.2 then (q.1, q.2 ++ [p.1]) else q)
-      else gs ++ [(p.2, [p.1])]) []
+    let groups := gtt.foldl megGroupStep []
     let big := groups.filter (fun q => q.2.length > 1)
-    .ok ((big.zipIdx).foldl (fun d q => q.1.2.foldl (fun d l => Dict.set d l q.2) d) [])
+    .ok ((big.zipIdx).foldl megIndexStep [])
 
 abbrev Keep := List (Nat × Label)
 
@@ -178,6 +184,18 @@ def megNames (groups : Dict Nat) (keep : Keep) : List Label → List Label × Ke
     let (xs, k2) := megNames groups k1 r
     (x :: xs, k2)
 
+/-- one step of the rebuild loop of `MergeEquivalentGates._transform` -/
+def megStep (c : Circuit) (groups : Dict Nat) (acc : R (Circuit × Keep)) (l : Label) : R (Circuit × Keep) :=
+  match acc with
+  | .error e => .error e
+  | .ok (n, keep) => match c.find? l with
+    | none => .error "GateDoesntExistError"
+    | some g =>
+      let (ops, keep') := megNames groups keep g.ops
+      match n.addGate ⟨g.label, g.ty, ops⟩ with
+      | .error e => .error e
+      | .ok n' => .ok (n', keep')
+
 /-- `MergeEquivalentGates._transform` -/
 def meg (c : Circuit) : R Circuit :=
   match megGroups c with
@@ -186,16 +204,7 @@ def meg (c : Circuit) : R Circuit :=
     match traverse c false false (some c.outputs) true with
     | .error e => .error e
     | .ok log =>
-      let step : R (Circuit × Keep) → Label → R (Circuit × Keep) := fun acc l => match acc with
-        | .error e => .error e
-        | .ok (n, keep) => match c.find? l with
-          | none => .error "GateDoesntExistError"
-          | some g =>
-            let (ops, keep') := megNames groups keep g.ops
-            match n.addGate ⟨g.label, g.ty, ops⟩ with
-            | .error e => .error e
-            | .ok n' => .ok (n', keep')
-      match (hookLabels log true).foldl step (.ok (Circuit.empty, [])) with
+      match (hookLabels log true).foldl (megStep c groups) (.ok (Circuit.empty, [])) with
       | .error e => .error e
       | .ok (n1, keep) => match n1.setInputs c.inputs with
         | .error e => .error e
